@@ -707,7 +707,26 @@ impl XGen {
         match r.below(10) {
             0 | 1 if positional_ok => Expr::Num(r.pick_s(&["1", "2", "3", "1.5", "0"]).to_string()),
             2 if positional_ok => Expr::Bin(*r.pick(&[Op::Eq, Op::Lt, Op::Ge, Op::Ne]), Box::new(Expr::Func("position".into(), vec![])), Box::new(if r.chance(1, 2) { Expr::Func("last".into(), vec![]) } else { Expr::Num(r.pick_s(&["1", "2"]).to_string()) })),
-            3 if positional_ok => Expr::Func("last".into(), vec![]),
+            3 if positional_ok && r.chance(1, 2) => Expr::Func("last".into(), vec![]),
+            3 => {
+                // a number that differs from node to node: it is compared with the position of each candidate in turn,
+                // so it can select several nodes (all of them, every other one, the ones with n preceding siblings ...)
+                let f = |n: &str, a: Vec<Expr>| Expr::Func(n.into(), a);
+                let pos = || Expr::Func("position".into(), vec![]);
+                let one = || Expr::Num("1".into());
+                let sibs = |t: Test| Expr::Path(Start::Context, vec![Step { axis: Axis::PrecedingSibling, test: t, preds: vec![], dslash: false }]);
+                match r.below(9) {
+                    0 => pos(),
+                    1 => Expr::Bin(Op::Mul, Box::new(Expr::Bin(Op::Mod, Box::new(pos()), Box::new(Expr::Num("2".into())))), Box::new(pos())),
+                    2 => Expr::Bin(Op::Add, Box::new(f("count", vec![sibs(Test::Node)])), Box::new(one())),
+                    3 => Expr::Bin(Op::Add, Box::new(f("count", vec![sibs(Test::Any)])), Box::new(one())),
+                    4 => Expr::Bin(Op::Sub, Box::new(Expr::Bin(Op::Add, Box::new(f("last", vec![])), Box::new(one()))), Box::new(pos())),
+                    5 => f("string-length", vec![]),
+                    6 => f("count", vec![Expr::Path(Start::Context, vec![Step { axis: Axis::Child, test: Test::Node, preds: vec![], dslash: false }])]),
+                    7 => f("floor", vec![Expr::Bin(Op::Div, Box::new(Expr::Bin(Op::Add, Box::new(pos()), Box::new(one()))), Box::new(Expr::Num("2".into())))]),
+                    _ => self.number(r, depth + 1),
+                }
+            }
             4 | 5 => self.nodeset(r, depth, false),
             _ => self.boolean(r, depth),
         }
